@@ -1,5 +1,8 @@
 """C06 -- every reply respects what the client sent and negotiated (Serve.tla)."""
+import os
+
 import c04_api
+import x06rl
 import serve_common as sc
 
 
@@ -21,3 +24,12 @@ def run(ctx, replay):
     if os.path.exists(ov):
         os.remove(ov)
     c04_api.run_ad_focus(ctx, 500 if not thorough else 4000)
+    # cookies and the client limiter as a state machine (RateLimit.tla): a server cookie only against the client's own
+    # cookie, BADCOOKIE exactly where documented, nothing reflected; the module's own limiter properties (rl/*) are
+    # judged by C05, here they are drift
+    x06rl.C06_ONLY = True
+    ctx.overlay_tags.add("x06rl")
+    ov = os.path.join(ctx.scratch, "overlay.json")
+    if os.path.exists(ov):
+        os.remove(ov)
+    x06rl.run_tier(ctx)
